@@ -1066,6 +1066,10 @@ func (e *Engine) callContract(st *State, fc *FuncContract, args []Value, call *a
 			g := e.evalClause(tmp, req, env)
 			req.fired++
 			e.oblige(tmp, "pre", shortName(fc.key)+" requires "+req.text, g, call.Pos(), nil)
+			if hasProp(req.ownProps, "panics") && len(e.obligs) > 0 {
+				// a library precondition whose violation is a run-time panic: a counterexample can be replayed like a safety obligation
+				e.obligs[len(e.obligs)-1].replayPanic = true
+			}
 			e.endScope(m)
 			// the caller continues under the (now proved) precondition; re-evaluated as an assumption below
 		}
